@@ -18,10 +18,13 @@
    * `spellings_same_outcome` — two whole renderings that differ only in how selectors are
      spelled are both accepted, and the two trees evaluate alike.
 
-  RESTRICTIONS: ASCII input; in the pointer spelling every escaped element is non-empty and
-  over `[A-Za-z0-9-_.~:|]` (the grammar's class `[\pL\pN-_.~:|]` restricted to ASCII), the path
-  is non-empty; index literals are `q body q` with an ASCII body without `q` (denoting
-  `strconv.Unquote` of the token).  Whole renderings: those of `Props/C16.lean`.
+  The surrounding input is valid UTF-8 (`VT` = Go's `utf8.ValidString`, `C16.valid_text_iff`).
+  RESTRICTIONS: in the pointer spelling every escaped element is non-empty valid UTF-8 whose
+  runes are in the grammar's class `[\pL\pN-_.~:|]` (`SegOK`: letters and numbers by Go's
+  `unicode.L` / `unicode.N` tables, non-ASCII ones included, or one of `-_.~:|` — a property of
+  the grammar), the path is non-empty; index literals are `q body q` with a valid UTF-8 body
+  without the byte `q` (denoting `strconv.Unquote` of the token).  Whole renderings: those of
+  `Props/C16.lean`.
 -/
 import Bexpr.Eval.Impl
 import Props.C15
@@ -36,7 +39,7 @@ open Bexpr.Props.C16Lex (ptrEscape)
 
 /-- bexpr spellings: `a.b.0`, `a["b"][`0`]`, `a[ "b" ].0`, … -/
 theorem selector_bexpr_spellings (σ : SelSp) (h : σ.WF) (rest : GoString) (hstop : stopsSel rest)
-    (hr : Asc rest) (rule : String) (fr : Frame) (off : Nat) (errs : List PErr) :
+    (hr : VT rest) (rule : String) (fr : Frame) (off : Nat) (errs : List PErr) :
     Sem pinEnv pinGrammar rule (.ruleRef "Selector") fr (ptAt (σ.text ++ rest) off) errs
       (.res (ptAt rest (off + σ.text.length)) errs fr (.sel { ty := .bexpr, path := σ.path })
         true) :=
@@ -44,7 +47,7 @@ theorem selector_bexpr_spellings (σ : SelSp) (h : σ.WF) (rest : GoString) (hst
 
 /-- JSON-pointer spelling: `"/a/b~1c/0"` is the path `[a, b/c, 0]`. -/
 theorem selector_pointer_spelling (path : List GoString) (hne : path ≠ [])
-    (h : ∀ p ∈ path, SegOK (ptrEscape p)) (rest : GoString) (hr : Asc rest) (rule : String)
+    (h : ∀ p ∈ path, SegOK (ptrEscape p)) (rest : GoString) (hr : VT rest) (rule : String)
     (fr : Frame) (off : Nat) (errs : List PErr) :
     Sem pinEnv pinGrammar rule (.ruleRef "Selector") fr (ptAt (pointerText path ++ rest) off) errs
       (.res (ptAt rest (off + (pointerText path).length)) errs fr
@@ -55,7 +58,7 @@ theorem selector_pointer_spelling (path : List GoString) (hne : path ≠ [])
     pointer spelling — parse to selectors with the same `.path`. -/
 theorem selector_spellings_same_path (x₁ x₂ : SelX) (h₁ : x₁.WF) (h₂ : x₂.WF)
     (hp : x₁.sel.path = x₂.sel.path) (rest₁ rest₂ : GoString) (hf₁ : x₁.follow rest₁)
-    (hf₂ : x₂.follow rest₂) (hr₁ : Asc rest₁) (hr₂ : Asc rest₂) (rule : String) (fr : Frame)
+    (hf₂ : x₂.follow rest₂) (hr₁ : VT rest₁) (hr₂ : VT rest₂) (rule : String) (fr : Frame)
     (off : Nat) (errs : List PErr) :
     ∃ s₁ s₂ : Selector,
       Sem pinEnv pinGrammar rule (.ruleRef "Selector") fr (ptAt (x₁.text ++ rest₁) off) errs
@@ -72,7 +75,7 @@ theorem bexpr_vs_pointer (σ : SelSp) : (SelX.bexpr σ).sel.path = (SelX.ptr σ.
     enough budget and fuel, both calls succeed with selectors of equal path -/
 theorem selector_spellings_engine (x₁ x₂ : SelX) (h₁ : x₁.WF) (h₂ : x₂.WF)
     (hp : x₁.sel.path = x₂.sel.path) (rest₁ rest₂ : GoString) (hf₁ : x₁.follow rest₁)
-    (hf₂ : x₂.follow rest₂) (hr₁ : Asc rest₁) (hr₂ : Asc rest₂) (rule : String) (fr : Frame)
+    (hf₂ : x₂.follow rest₂) (hr₁ : VT rest₁) (hr₂ : VT rest₂) (rule : String) (fr : Frame)
     (off : Nat) (errs : List PErr) :
     ∃ (s₁ s₂ : Selector) (N₁ N₂ : Nat), s₁.path = s₂.path ∧
       ∀ max fuel cnt, cnt + N₁ ≤ max → N₁ ≤ fuel → cnt + N₂ ≤ max → N₂ ≤ fuel →
@@ -191,7 +194,30 @@ theorem pointer_WF : (SelX.ptr path).WF := by
   intro p hp
   simp only [path, List.mem_cons, List.not_mem_nil, or_false] at hp
   rcases hp with rfl | rfl | rfl <;>
-    (rw [C16Lex.ptrEscape_eq_flatMap]; exact ⟨by decide, by decide, by decide⟩)
+    (rw [C16Lex.ptrEscape_eq_flatMap]; exact SegOK.of_ascii (by decide) (by decide) (by decide))
+
+/-- non-ASCII path elements: `ключ["名前"]`-style index literals and `"/ключ/名前"` -/
+def keyK : GoString := [0xD0, 0xBA, 0xD0, 0xBB, 0xD1, 0x8E, 0xD1, 0x87]  -- ключ
+def keyN : GoString := [0xE5, 0x90, 0x8D, 0xE5, 0x89, 0x8D]              -- 名前
+def bracketedU : SelSp := ⟨97, [], [.index [] 0x22 keyK [] keyK, .index [] 0x60 keyN [] keyN]⟩
+
+theorem bracketedU_WF : bracketedU.WF := by
+  refine ⟨by decide, by decide, ?_⟩
+  intro p hp
+  simp only [bracketedU, List.mem_cons, List.not_mem_nil, or_false] at hp
+  rcases hp with rfl | rfl
+  · exact ⟨by decide, by decide, .inr rfl, by decide +kernel, by decide, by decide +kernel⟩
+  · exact ⟨by decide, by decide, .inl rfl, by decide +kernel, by decide, by decide +kernel⟩
+
+theorem pointerU_WF : (SelX.ptr [[97], keyK, keyN]).WF := by
+  refine ⟨by decide, ?_⟩
+  intro p hp
+  simp only [List.mem_cons, List.not_mem_nil, or_false] at hp
+  rcases hp with rfl | rfl | rfl <;> (rw [C16Lex.ptrEscape_eq_flatMap]; decide +kernel)
+
+/-- `a["ключ"][`名前`]` and `"/a/ключ/名前"` denote the same path -/
+theorem unicode_same_path :
+    (SelX.bexpr bracketedU).sel.path = (SelX.ptr [[97], keyK, keyN]).sel.path := rfl
 
 /-- the escapes: `"/a~1b/c~0d"` is the path `[a/b, c~d]` -/
 theorem escapes : pointerText [asc "a/b", asc "c~d"] = asc "\"/a~1b/c~0d\"" := by
@@ -215,4 +241,7 @@ end Bexpr.Props.C07
 #print axioms Bexpr.Props.C07.Example.dotted_WF
 #print axioms Bexpr.Props.C07.Example.bracketed_WF
 #print axioms Bexpr.Props.C07.Example.pointer_WF
+#print axioms Bexpr.Props.C07.Example.bracketedU_WF
+#print axioms Bexpr.Props.C07.Example.pointerU_WF
+#print axioms Bexpr.Props.C07.Example.unicode_same_path
 #print axioms Bexpr.Props.C07.Example.escapes
